@@ -50,7 +50,8 @@ def check(run):
         kt = known_tags(s["fields"])
         unknown = [t for t in range(1, 255) if t not in kt and t not in (0x1f, 0xff)]
         for _ in range(10 if th else 3):
-            v, b = layouts.gen_struct_value(rng, s)
+            # no absent positional optional: bytes added inside the body would, by the wire format itself, be read as that field (5.1)
+            v, b = layouts.gen_struct_value(rng, s, absent_pos=False)
             fi = rng.choice(idxs)
             f = s["fields"][fi]
             if v[1][fi] is None or v[1][fi] == []:
